@@ -64,6 +64,21 @@ class VIter(V):
         return f"VIter({self.what})"
 
 
+# opaque python mappings (a function's __globals__, a module's globals()): membership and lookup by name
+mhas = z3.Function("mapping_has", core.Opq, core.StrS, z3.BoolSort())
+mget = z3.Function("mapping_get", core.Opq, core.StrS, core.Opq)
+MAPPING_TAGS = ("attr:__globals__", "opaque-dict")
+
+
+def name_term(v):
+    """StrS term of a string-like value (VStr or a string dict key)"""
+    if isinstance(v, VStr):
+        return v.t
+    if isinstance(v, VKey):
+        return core.Key.ks(v.t)
+    return None
+
+
 # uninterpreted helpers
 key2str = z3.Function("key2str", core.Key, core.StrS)  # str(k) for a dict key
 str2key = z3.Function("str2key", core.StrS, core.Key)  # inverse of key2str on the keys of one dict (injectivity assumed for int keys)
@@ -520,6 +535,8 @@ class Builtins:
 
     def contains(self, st, cont, item):
         X = self.X
+        if isinstance(cont, VOpq) and cont.tag in MAPPING_TAGS and name_term(item) is not None:
+            return [Res(st, VBool(mhas(cont.t, name_term(item))))]
         if isinstance(cont, VTuple) and isinstance(item, VJson) and all(isinstance(x, VStr) for x in cont.items):
             from . import jsonmodel as JM
 
@@ -764,6 +781,15 @@ class Builtins:
     def _getitem(self, st, a, i):
         X = self.X
         from . import npmodel
+
+        if isinstance(a, VOpq) and a.tag in MAPPING_TAGS and name_term(i) is not None:
+            out = []
+            for s, has in X.branch(st, mhas(a.t, name_term(i))):
+                if has:
+                    out.append(Res(s, VOpq(mget(a.t, name_term(i)), "other")))
+                else:
+                    out.extend(X.raise_(s, "KeyError", "name"))
+            return out
 
         if npmodel.is_arr(st, a):
             return npmodel.getitem(X, st, a, i)
@@ -1692,6 +1718,7 @@ class Builtins:
 
         mk = z3.Function("mkfn", core.Opq, core.Opq, core.Opq, core.Opq, core.Opq)
         t = mk(opq(code), opq(name), opq(defaults), opq(closure))
+        st.events.append(("function-globals", t, g))  # checked separately (c11: the names the code refers to)
         return [Res(st, VOpq(t, "function"))]
 
     def bi_id(self, st, fv, args, kw):
